@@ -146,11 +146,12 @@ def dauth_mac(kek, master, keygen_name, data, form):
         return "err " + exc_name(e)
 
 
-def dauth_token(keys, version, region, challenge, data_text, client_id, edge, vendor):
-    """runs the real device_token/edge_token against a scripted server; returns (result line, captured rawform or None)"""
-    c = dauth.DAuthClient(keys)
-    c.set_system_version(version)
-    c.set_platform_region(region)
+def dauth_token(keys, version, region, challenge, data_text, client_id, edge, vendor, client=None):
+    """runs the real device_token/edge_token against a scripted server; returns (result line, captured request, client).
+    With `client` the SAME DAuthClient object is reused (set_system_version / set_platform_region applied to it)."""
+    c = dauth.DAuthClient(keys) if client is None else client
+    if version is not None: c.set_system_version(version)
+    if region is not None: c.set_platform_region(region)
     cap = []
     async def cb(host, req, ctx):
         cap.append(req)
@@ -187,10 +188,11 @@ def make_ticket(rng, title_id, rev=None, bad=None):
     return bytes(t)
 
 
-def aauth_digital(version, title_id, title_version, ticket, plain_key, seed, modulus=None, exponent=None):
-    """real AAuthClient.auth_digital with both RNG draws pinned; returns (line, form dict)"""
+def aauth_digital(version, title_id, title_version, ticket, plain_key, seed, modulus=None, exponent=None, client=None):
+    """real AAuthClient.auth_digital with both RNG draws pinned; returns (line, form dict).
+    With `client` the SAME AAuthClient object is reused."""
     import Crypto.Random
-    c = aauth.AAuthClient()
+    c = aauth.AAuthClient() if client is None else client
     c.set_system_version(version)
     cap = []
     async def cb(host, req, ctx):
@@ -237,10 +239,14 @@ def hpp_client(settings, pid, password):
         hpp.resources.certificate, hpp.tls.TLSContext.set_authority = saved
 
 
-def hpp_request(settings, pid, password, call_id, protocol, method, body, status, resp_body):
-    """returns (signature line, validation line)"""
-    c = hpp_client(settings, pid, password)
-    c.call_id = call_id
+def hpp_request(settings, pid, password, call_id, protocol, method, body, status, resp_body, client=None):
+    """returns (signature line, validation line). With `client` the SAME HppClient is reused and its own
+    call-id counter is left alone (call_id is then only what the scripted response was built for)."""
+    if client is None:
+        c = hpp_client(settings, pid, password)
+        c.call_id = call_id
+    else:
+        c = client
     cap = []
     async def fake_request(host, req, ctx):
         cap.append(req)
